@@ -89,7 +89,7 @@ def normalise(trace):
         if t[0] == 'dtor':
             run.append(t)
         else:
-            if t[0] in ('tmethod', 'cost'):
+            if t[0] in ('tmethod', 'cost', 'op'):
                 continue
             if t[0] == 'ret' and t[1] in ('cost_clone', 'cost_drop'):
                 continue
